@@ -515,6 +515,26 @@ func (c *Ctx) Eq(a, b *Term) *Term {
 		return c.True()
 	}
 	a, b = c.coerceIdx(a, b)
+	// tuples are equal componentwise; distinct string literals are distinct strings
+	if (a.Op == "mktuple" && b.Op == "mktuple" && a.Sort == b.Sort) || (a.Op == "app" && b.Op == "app" && a.Name == b.Name && strings.HasPrefix(a.Name, "box$") && len(a.Args) == len(b.Args)) {
+		parts := make([]*Term, len(a.Args))
+		for i := range a.Args {
+			parts[i] = c.Eq(a.Args[i], b.Args[i])
+		}
+		return c.And(parts...)
+	}
+	if a.Op == "app" && b.Op == "app" && len(a.Args) == 0 && len(b.Args) == 0 && strings.HasPrefix(a.Name, "str$") && strings.HasPrefix(b.Name, "str$") {
+		return c.False() // a != b here: identical terms were handled above
+	}
+	// alloc0 >= 0 is a standing assumption: alloc0 + k (k > 0) is a fresh reference, never nil or negative
+	if a.Sort.Kind == SInt {
+		isFresh := func(t *Term) bool {
+			return t.Op == "+" && t.Args[0].Op == "const" && t.Args[0].Name == "alloc0" && t.Args[1].IsLit() && t.Args[1].Val.Sign() > 0
+		}
+		if (isFresh(a) && b.IsLit() && b.Val.Sign() <= 0) || (isFresh(b) && a.IsLit() && a.Val.Sign() <= 0) {
+			return c.False()
+		}
+	}
 	if a.Sort != b.Sort {
 		panic(fmt.Sprintf("eq sort mismatch %s vs %s (%s, %s)", a.Sort, b.Sort, c.Show(a), c.Show(b)))
 	}
